@@ -105,6 +105,33 @@ def _stub_float_repr(self):
 builtinslib.SymbolicFloat.__repr__ = _stub_float_repr
 
 
+# -- int(symbolic float) ------------------------------------------------------
+# CrossHair realises a symbolic float before truncating it, which enumerates
+# concrete values without end. Truncation toward zero is expressible in linear
+# mixed integer/real arithmetic, so keep it symbolic.
+_orig_int_patch = _ch_core._PATCH_REGISTRATIONS[int]
+
+
+def _symbolic_int(*args, **kw):
+    with NoTracing():
+        if not any(type(a).__module__.startswith("crosshair") for a in args):
+            return int(*args, **kw)  # concrete: the real builtin
+        if len(args) == 1 and not kw:
+            val = args[0]
+            if isinstance(val, builtinslib.RealBasedSymbolicFloat):
+                from crosshair.statespace import context_statespace
+                space = context_statespace()
+                n = z3.Int("trunc" + space.uniq())
+                x = val.var
+                nr = z3.ToReal(n)
+                space.add(z3.If(x >= 0, z3.And(nr <= x, x < nr + 1), z3.And(nr >= x, x > nr - 1)))
+                return builtinslib.SymbolicInt(n, int)
+    return _orig_int_patch(*args, **kw)
+
+
+_ch_core._PATCH_REGISTRATIONS[int] = _symbolic_int
+
+
 class _SolverStats:
     calls = 0
     seconds = 0.0
